@@ -686,6 +686,30 @@ def norm_block(stmts: list) -> list:
                                                            value=ast.Call(func=ast.Name(id="next", ctx=ast.Load()), args=[gen, prev[1]], keywords=[])), out[-1])
                     i += 1
                     continue
+        # ---- set-collecting loop (possibly nested): X = set() ; for a in A: [for b in B:] [if C:] X.add(E)   ->   X = {E for a in A for b in B if C}
+        if isinstance(s, ast.For) and out:
+            prev = _single_assign([out[-1]])
+            if prev is not None and ((isinstance(prev[1], ast.Call) and isinstance(prev[1].func, ast.Name) and prev[1].func.id == "set"
+                                      and not prev[1].args and not prev[1].keywords)):
+                loops_s, cur_s = [], s
+                while isinstance(cur_s, ast.For) and not cur_s.orelse and len(cur_s.body) == 1:
+                    loops_s.append(cur_s)
+                    cur_s = cur_s.body[0]
+                cond_s = None
+                if isinstance(cur_s, ast.If) and not cur_s.orelse and len(cur_s.body) == 1:
+                    cond_s, cur_s = cur_s.test, cur_s.body[0]
+                if (loops_s and len(loops_s) <= 3 and isinstance(cur_s, ast.Expr) and isinstance(cur_s.value, ast.Call)
+                        and isinstance(cur_s.value.func, ast.Attribute) and cur_s.value.func.attr == "add"
+                        and isinstance(cur_s.value.func.value, ast.Name) and cur_s.value.func.value.id == prev[0] and len(cur_s.value.args) == 1
+                        and prev[0] not in names_loaded(cur_s.value.args[0]) and (cond_s is None or prev[0] not in names_loaded(cond_s))
+                        and all(prev[0] not in names_loaded(l_.iter) for l_ in loops_s)):
+                    gens = [ast.comprehension(target=l_.target, iter=l_.iter, ifs=[], is_async=0) for l_ in loops_s]
+                    if cond_s is not None:
+                        gens[-1].ifs = [cond_s]
+                    comp = ast.SetComp(elt=cur_s.value.args[0], generators=gens)
+                    out[-1] = ast.copy_location(ast.Assign(targets=[ast.Name(id=prev[0], ctx=ast.Store())], value=comp), out[-1])
+                    i += 1
+                    continue
         # ---- search loop without filter: for T in IT: return E ... (rare) - skipped
         # ---- collecting loop: out = [] ; for T in IT: [if C:] out.append(E)
         if isinstance(s, ast.For) and not s.orelse and len(s.body) == 1 and out:
@@ -904,6 +928,16 @@ def forward_subst(stmts: list, keep: Set[str], params: Set[str], _top=True, _cou
                           for t in out[idx + 1:] for n in ast.walk(t)) or \
                 any(isinstance(n, (ast.Subscript, ast.Attribute)) and isinstance(n.ctx, (ast.Store, ast.Del)) and isinstance(n.value, ast.Name) and n.value.id == name
                     for t in out[idx + 1:] for n in ast.walk(t))
+            if not mutated:
+                # element mutation: name[k].add(v) / name[k].append(v) / name[k][j] = v
+                def _base(n_):
+                    while isinstance(n_, (ast.Subscript, ast.Attribute)):
+                        n_ = n_.value
+                    return n_
+                mutated = any(isinstance(n, ast.Call) and isinstance(n.func, ast.Attribute) and isinstance(n.func.value, ast.Subscript)
+                              and isinstance(_base(n.func.value), ast.Name) and _base(n.func.value).id == name
+                              and n.func.attr in ("append", "extend", "add", "update", "setdefault", "insert", "pop", "remove", "clear", "sort")
+                              for t in out[idx + 1:] for n in ast.walk(t))
             if mutated:
                 continue
             # an object under construction (Class(...)) that is used more than once is state, not a value
@@ -912,6 +946,8 @@ def forward_subst(stmts: list, keep: Set[str], params: Set[str], _top=True, _cou
                 uses = sum(1 for t in out[idx + 1:] for n in ast.walk(t) if isinstance(n, ast.Name) and n.id == name and isinstance(n.ctx, ast.Load))
                 if callee[:1].isupper() and uses > 1:
                     continue
+                if callee in ("defaultdict", "dict", "list", "set", "OrderedDict", "Counter", "deque") and uses > 1:
+                    continue        # a fresh container used at several places is shared state (filled here, read there), not a value
             # names the value depends on must not be re-bound afterwards
             deps = names_loaded(val)
             if any(counts.get(d, 0) > 1 for d in deps if d not in params):
